@@ -344,6 +344,10 @@ def run_property(pid, tier):
     seed = int(os.environ.get("VERIF_SEED", "0") or 0)
     spec = importlib.import_module("vcheck.props." + pid.lower())
     conds = [c for c in spec.CONDITIONS if tier in c.tiers]
+    only = os.environ.get("VCHECK_ONLY")     # development aid: run the conditions whose name contains this text
+    if only:
+        conds = [c for c in conds if only in c.name]
+        os.environ.setdefault("VCHECK_EVIDENCE_DIR", tempfile.mkdtemp(prefix="vcheck_partial_evidence_"))
     known = load_known(pid)
     scratch = tempfile.mkdtemp(prefix="vcheck_%s_" % pid)
     try:
@@ -457,8 +461,9 @@ def write_evidence(pid, tier, seed, spec, recs, known, wall):
         "wall_s": round(wall, 2),
         "violations": sum(1 for r in recs if r["status"] == "violation"),
     }
-    os.makedirs(os.path.join(ROOT, "evidence"), exist_ok=True)
-    with open(os.path.join(ROOT, "evidence", pid + ".json"), "w") as f:
+    evdir = os.environ.get("VCHECK_EVIDENCE_DIR") or os.path.join(ROOT, "evidence")   # scratch runs against seeded trees redirect it
+    os.makedirs(evdir, exist_ok=True)
+    with open(os.path.join(evdir, pid + ".json"), "w") as f:
         json.dump(ev, f, indent=1, default=str)
 
 
